@@ -1,0 +1,7 @@
+//go:build !verif
+
+package lib
+
+// VerifPoint is a no-op unless the framework is built with the "verif" tag
+// (see verifpoint_verif.go). It marks yield points for the verification harness.
+func VerifPoint(name string, id uint64) {}
